@@ -38,12 +38,12 @@ Proof. exact regfile_balanced_lemma. Qed.
 (* MakeRegister is reached only with numReg < NumRegisters: its panic is not an outcome *)
 Theorem regfile_never_overflows : forall (r : bool) (s : skel) (m : mstate) g m' t,
   envs m <> [] -> eval (repaired r) s m = (g, m', t) -> g <> GPanic PNoRegisters.
-Proof. intros r s m g m' t H E. exact (proj1 (regfile_no_failure_lemma r s m g m' t H E)). Qed.
+Proof. exact regfile_never_overflows_lemma. Qed.
 
 (* ReleaseRegister's index test never fails (and no environment index is out of range) *)
 Theorem release_is_lifo : forall (r : bool) (s : skel) (m : mstate) g m' t,
   envs m <> [] -> eval (repaired r) s m = (g, m', t) -> g <> GPanic PNonLifo /\ g <> GStuck.
-Proof. intros r s m g m' t H E. exact (proj2 (regfile_no_failure_lemma r s m g m' t H E)). Qed.
+Proof. exact release_is_lifo_lemma. Qed.
 
 (* ---- the body rewrite ---- *)
 (* on every tree ast.Modify cannot panic on: ok=false exactly for the documented bail-outs
@@ -76,10 +76,7 @@ Definition skeleton_run (regs : bool) (inputs : list skel) : list okind :=
 
 Theorem skeleton_reg_unobservable :
   reg_unobservable (list skel) (list okind) (fun _ => false) skeleton_run.
-Proof.
-  intros p _. unfold skeleton_run.
-  apply session_outcomes_reg_independent. exists 0. repeat split.
-Qed.
+Proof. exact (fun p => skeleton_sessions_lemma p false). Qed.
 
 (* ---- the tree as pinned violated all of this (witnesses) ---- *)
 Definition brk_loop : skel := KLoop true true [KLeaf LNormal; KLeaf LBreak].
